@@ -226,10 +226,15 @@ class FrameQueueFrag(FrameQueue):
                 and frame.header.to_node == self._frags.header.to_node
                 and frame.header.frame_id == self._frags.header.frame_id
             ):
-                if (
-                    self._frags.header.reserved - 1 != frame.header.reserved
-                    and frame.header.message_type != MSG_FRAG_LAST
-                ):
+                if frame.header.message_type == MSG_FRAG_LAST:
+                    # the last fragment's reserved byte carries the message type; it
+                    # is in sequence if no more than 1 fragment was still expected
+                    sequential = self._frags.header.reserved - 1 <= 1
+                else:
+                    sequential = (
+                        self._frags.header.reserved - 1 == frame.header.reserved
+                    )
+                if not sequential:
                     # print("dropping non sequential fragment")
                     return False
                 self._frags.header.unpack(frame.header.pack())
